@@ -178,7 +178,7 @@ def parseOp (t : List String) : Option XOp :=
   match t with
   | ["setallp", k, j] => do let k ← nat? k; let j ← nat? j; guard (isReg k && isReg j); pure (.setAllParamsA k j)
   | ["setps", k, j] => do let k ← nat? k; let j ← nat? j; guard (isReg k && isReg j); pure (.setParamsA k j)
-  | ["at", k, i] => do let k ← nat? k; let i ← nat? i; guard (isReg k); pure (.at k i)
+  | ["at", k, i] => do let k ← nat? k; let i ← nat? i; guard (isReg k); pure (.nth k i)
   | ["param", k, n] => do let k ← nat? k; guard (isReg k); pure (.param k (readName n))
   | ["ap.addnull", k] => do let k ← nat? k; guard (isAp k); pure (.apAddNull k)
   | ["ap.has", k, n] => do let k ← nat? k; guard (isAp k); pure (.apHas k (readName n))
